@@ -229,6 +229,17 @@ pub(crate) fn parse_svg_element<'input>(
 ) -> Result<NodeId, Error> {
     let attrs_start_idx = doc.attrs.len();
 
+    #[cfg(resvg_verif)]
+    if super::verif::enabled() {
+        let ancestors: Vec<String> = doc
+            .get(parent_id)
+            .ancestors()
+            .filter(|n| n.is_element())
+            .map(|n| super::verif::fmt_attrs(n.attributes()))
+            .collect();
+        super::verif::log(|| format!("elem_begin {} {}", tag_name.to_str(), ancestors.join(" ")));
+    }
+
     // Copy presentational attributes first.
     for attr in xml_node.attributes() {
         match attr.namespace() {
@@ -259,6 +270,9 @@ pub(crate) fn parse_svg_element<'input>(
             continue;
         }
 
+        #[cfg(resvg_verif)]
+        super::verif::log(|| format!("xml {} {}", aid.to_str(), super::verif::hex(attr.value())));
+
         append_attribute(
             parent_id,
             tag_name,
@@ -270,6 +284,19 @@ pub(crate) fn parse_svg_element<'input>(
     }
 
     let mut insert_attribute = |aid, value: &str, important: bool| {
+        #[cfg(resvg_verif)]
+        {
+            let verif_aid: AId = aid;
+            super::verif::log(|| {
+                format!(
+                    "decl {} {} {}",
+                    verif_aid.to_str(),
+                    super::verif::hex(value),
+                    important as u8
+                )
+            });
+        }
+
         // Check that attribute already exists.
         let idx = doc.attrs[attrs_start_idx..]
             .iter_mut()
@@ -322,6 +349,16 @@ pub(crate) fn parse_svg_element<'input>(
         // TODO: perform XML attribute normalization
         let imp = declaration.important;
         let val = declaration.value;
+
+        #[cfg(resvg_verif)]
+        super::verif::log(|| {
+            format!(
+                "rawdecl {} {} {}",
+                super::verif::hex(declaration.name),
+                super::verif::hex(val),
+                imp as u8
+            )
+        });
 
         if declaration.name == "marker" {
             insert_attribute(AId::MarkerStart, val, imp);
@@ -388,6 +425,11 @@ pub(crate) fn parse_svg_element<'input>(
             write_declaration(&declaration);
         }
     }
+
+    #[cfg(resvg_verif)]
+    super::verif::log(|| {
+        format!("elem_end {}", super::verif::fmt_attrs(&doc.attrs[attrs_start_idx..]))
+    });
 
     if doc.nodes.len() > 1_000_000 {
         return Err(Error::NodesLimitReached);
